@@ -1,4 +1,157 @@
-(** placeholder while the proofs are being written *)
-Require Import NixV.Access.Retrieval NixV.Access.RetrievalSpec.
-Example placeholder : code_today <> repaired. Proof. discriminate. Qed.
-Print Assumptions placeholder.
+(** C05 — Tag retrieval returns exactly the tagged region.
+    Model: Access/Retrieval.v (src/util/dataAccess.cpp statement for statement, over the generated index conversions).
+    Specification: Access/RetrievalSpec.v ([region_is]: per-dimension index sets on the axis coordinates; [spec_answer]:
+    the extracted brute-force oracle).  Proofs: Access/Retrieval{Facts,Axis,Domain,Assemble,Tag,Oracle,Proofs,Closed}.v.
+
+    [repaired] is the behaviour the property demands (all defects repaired, index-range padding);
+    [repaired_except_pinned] is the tree after notes/proposed-fixes/C05-*.patch, C06-*.patch: the pinned test
+    testFlexibleTagging keeps the Exclusive-mode loss of the last element of an unspecified dimension, so the
+    statements for it carry [not_pinned] and the excluded case is refuted by a witness (open finding).
+    [tag_ok] is the domain of the statement (decidable, the same check the extracted oracle performs). *)
+From Coq Require Import ZArith Bool String List.
+Require Import NixV.Base.Prelude NixV.Base.F64 NixV.Gen.GenDimensions.
+Require Import NixV.Access.Retrieval NixV.Access.RetrievalSpec NixV.Access.RetrievalAxis NixV.Access.RetrievalDomain
+               NixV.Access.RetrievalAssemble NixV.Access.RetrievalTag NixV.Access.RetrievalOracle
+               NixV.Access.RetrievalProofs NixV.Access.RetrievalClosed.
+Import ListNotations.
+Local Open Scope Z_scope.
+
+(** taggedData = Ok (off, cnt) <=> every per-dimension set is non-empty and lies in the data, and then
+    [off, off + cnt) IS the region *)
+Theorem tagged_exact t a m off cnt : tag_ok t a ->
+  (taggedData_tag repaired t a m = Ok (off, cnt) <->
+   region_is (tag_incl t m) (a_dims a) (a_shape a) (tag_wants t a) off cnt).
+Proof. exact (tagged_exact_c t a m off cnt). Qed.
+Print Assumptions tagged_exact.
+
+Theorem tagged_exact_partial t a m off cnt : tag_ok t a -> not_pinned t a m ->
+  (taggedData_tag repaired_except_pinned t a m = Ok (off, cnt) <->
+   region_is (tag_incl t m) (a_dims a) (a_shape a) (tag_wants t a) off cnt).
+Proof. exact (tagged_exact_partial_c t a m off cnt). Qed.
+Print Assumptions tagged_exact_partial.
+
+Theorem tagged_exact_refuted :
+  exists t a m off cnt, tag_ok t a /\
+    taggedData_tag repaired_except_pinned t a m = Ok (off, cnt) /\
+    ~ region_is (tag_incl t m) (a_dims a) (a_shape a) (tag_wants t a) off cnt.
+Proof. exact RetrievalProofs.tagged_exact_refuted. Qed.
+Print Assumptions tagged_exact_refuted.
+
+(** no region (a set is empty or reaches outside the stored data): nix::OutOfBounds, never data *)
+Theorem tagged_oob t a m : tag_ok t a ->
+  (forall off cnt, ~ region_is (tag_incl t m) (a_dims a) (a_shape a) (tag_wants t a) off cnt) ->
+  taggedData_tag repaired t a m = Err E_OutOfBounds.
+Proof. exact (tagged_oob_c t a m). Qed.
+Print Assumptions tagged_oob.
+
+Theorem tagged_oob_partial t a m : tag_ok t a -> not_pinned t a m ->
+  (forall off cnt, ~ region_is (tag_incl t m) (a_dims a) (a_shape a) (tag_wants t a) off cnt) ->
+  taggedData_tag repaired_except_pinned t a m = Err E_OutOfBounds.
+Proof. exact (tagged_oob_partial_c t a m). Qed.
+Print Assumptions tagged_oob_partial.
+
+(** the outcome is data or nix::OutOfBounds: no other exception, no undefined behaviour *)
+Theorem tagged_total B t a m : tag_ok t a -> B = repaired \/ B = repaired_except_pinned -> pinned_free B t a m ->
+  (exists oc, taggedData_tag B t a m = Ok oc) \/ taggedData_tag B t a m = Err E_OutOfBounds.
+Proof. exact (tagged_total_c B t a m). Qed.
+Print Assumptions tagged_total.
+
+(** more position entries than dimensions: the extra ones are ignored (every behaviour, no side condition) *)
+Theorem extra_positions_ignored B t a m xs ys :
+  zlen (t_pos t) = zlen (a_dims a) ->
+  (t_ext t = [] /\ ys = []) \/ (t_ext t <> [] /\ zlen (t_ext t) = zlen (t_pos t) /\ zlen ys = zlen xs) ->
+  taggedData_tag B (mkTag (t_pos t ++ xs) (t_ext t ++ ys) (t_units t) (t_refs t) (t_feats t)) a m =
+  taggedData_tag B t a m.
+Proof. exact (RetrievalProofs.extra_positions_ignored B t a m xs ys). Qed.
+Print Assumptions extra_positions_ignored.
+
+(** fewer position entries than dimensions: the unspecified dimensions come back in full *)
+Theorem missing_positions_full_dim t a m off cnt k sh : tag_ok t a ->
+  taggedData_tag repaired t a m = Ok (off, cnt) ->
+  (List.length (t_pos t) <= k < List.length (a_dims a))%nat -> nth_error (a_shape a) k = Some sh ->
+  nth_error off k = Some 0 /\ nth_error cnt k = Some sh.
+Proof. exact (missing_positions_full_dim_c t a m off cnt k sh). Qed.
+Print Assumptions missing_positions_full_dim.
+
+Theorem missing_positions_full_dim_inclusive t a m off cnt k sh : tag_ok t a -> tag_incl t m = true ->
+  taggedData_tag repaired_except_pinned t a m = Ok (off, cnt) ->
+  (List.length (t_pos t) <= k < List.length (a_dims a))%nat -> nth_error (a_shape a) k = Some sh ->
+  nth_error off k = Some 0 /\ nth_error cnt k = Some sh.
+Proof. exact (missing_positions_full_dim_inclusive_c t a m off cnt k sh). Qed.
+Print Assumptions missing_positions_full_dim_inclusive.
+
+Theorem missing_positions_exclusive_refuted :
+  exists t a off cnt, tag_ok t a /\
+    taggedData_tag repaired_except_pinned t a RangeMatch_Exclusive = Ok (off, cnt) /\
+    (List.length (t_pos t) <= 1 < List.length (a_dims a))%nat /\
+    nth_error (a_shape a) 1 = Some 3 /\ nth_error cnt 1 = Some 2.
+Proof. exact RetrievalProofs.missing_positions_exclusive_refuted. Qed.
+Print Assumptions missing_positions_exclusive_refuted.
+
+(** feature data follows the link type *)
+Theorem feature_dispatch B t f m :
+  featureData_tag_feat B t f m =
+  match f_link f with
+  | LTagged => taggedData_tag B t (f_data f) m
+  | LUntagged | LIndexed => whole (f_data f)
+  end.
+Proof. exact (RetrievalProofs.feature_dispatch B t f m). Qed.
+Print Assumptions feature_dispatch.
+
+Theorem feature_untagged_whole B t f m : f_link f <> LTagged ->
+  (forall s, In s (a_shape (f_data f)) -> 0 <= s < two64) ->
+  featureData_tag_feat B t f m = Ok (zrepeat 0 (zlen (a_shape (f_data f))), a_shape (f_data f)).
+Proof. exact (RetrievalProofs.feature_untagged_whole B t f m). Qed.
+Print Assumptions feature_untagged_whole.
+
+(** the extracted brute-force oracle is the Prop-level specification ... *)
+Theorem oracle_region incl a ws off cnt :
+  spec_answer incl a ws = Region (off, cnt) -> region_is incl (a_dims a) (a_shape a) ws off cnt.
+Proof. exact (RetrievalOracle.oracle_region incl a ws off cnt). Qed.
+Print Assumptions oracle_region.
+
+Theorem oracle_refuse incl a ws :
+  spec_answer incl a ws = Refuse -> forall off cnt, ~ region_is incl (a_dims a) (a_shape a) ws off cnt.
+Proof. exact (RetrievalOracle.oracle_refuse incl a ws). Qed.
+Print Assumptions oracle_refuse.
+
+(** ... and the repaired model answers what the oracle answers, on the oracle's whole domain *)
+Theorem tag_meets_oracle t a m :
+  match spec_answer (tag_incl t m) a (tag_wants t a) with
+  | Region oc => taggedData_tag repaired t a m = Ok oc
+  | Refuse => taggedData_tag repaired t a m = Err E_OutOfBounds
+  | Unconstrained => True
+  end.
+Proof. exact (tag_meets_oracle_c t a m). Qed.
+Print Assumptions tag_meets_oracle.
+
+Theorem tag_meets_oracle_partial t a m : not_pinned t a m ->
+  match spec_answer (tag_incl t m) a (tag_wants t a) with
+  | Region oc => taggedData_tag repaired_except_pinned t a m = Ok oc
+  | Refuse => taggedData_tag repaired_except_pinned t a m = Err E_OutOfBounds
+  | Unconstrained => True
+  end.
+Proof. exact (tag_meets_oracle_partial_c t a m). Qed.
+Print Assumptions tag_meets_oracle_partial.
+
+(** non-vacuity: a sampled x range array, a tag with units, data returned / request refused *)
+Example tagged_exact_nonvacuous :
+  tag_ok ex_tag ex_array /\ not_pinned ex_tag ex_array RangeMatch_Exclusive /\
+  taggedData_tag repaired_except_pinned ex_tag ex_array RangeMatch_Exclusive = Ok ([2; 1], [4; 1]) /\
+  region_is (tag_incl ex_tag RangeMatch_Exclusive) (a_dims ex_array) (a_shape ex_array) (tag_wants ex_tag ex_array) [2; 1] [4; 1].
+Proof. exact RetrievalClosed.tagged_exact_nonvacuous. Qed.
+Print Assumptions tagged_exact_nonvacuous.
+
+Example tagged_oob_nonvacuous :
+  tag_ok ex_tag_far ex_array /\
+  taggedData_tag repaired_except_pinned ex_tag_far ex_array RangeMatch_Inclusive = Err E_OutOfBounds /\
+  forall off cnt, ~ region_is (tag_incl ex_tag_far RangeMatch_Inclusive) (a_dims ex_array) (a_shape ex_array)
+                                (tag_wants ex_tag_far ex_array) off cnt.
+Proof. exact RetrievalClosed.tagged_oob_nonvacuous. Qed.
+Print Assumptions tagged_oob_nonvacuous.
+
+(** OPEN OBLIGATION while the defects of DESIGN section 9 items 4, 19, 28, 31 are in the tree: the behaviour the
+    extracted driver replays against the library is the repaired one.  Holds once the fix: commits have landed and
+    [current_behaviour] in Access/Retrieval.v has been set to [repaired_except_pinned]. *)
+Theorem current_is_repaired : current_behaviour = repaired_except_pinned.
+Proof. reflexivity. Qed.
